@@ -54,6 +54,18 @@ fn exp_words(op: &Value) -> Vec<u64> {
 }
 
 /// operations common to every field of the library
+/// a reader that hands out at most `chunk` bytes per read call
+pub struct ChunkRd<'a, 'b> {
+    pub inner: &'a mut std::io::Cursor<&'b [u8]>,
+    pub chunk: usize,
+}
+impl<'a, 'b> std::io::Read for ChunkRd<'a, 'b> {
+    fn read(&mut self, buf: &mut [u8]) -> std::io::Result<usize> {
+        let n = std::cmp::min(buf.len(), self.chunk);
+        self.inner.read(&mut buf[..n])
+    }
+}
+
 macro_rules! field_common {
     ($fname:ident, $F:ty) => {
         fn $fname(f: &str, op: &Value) -> Option<Value> {
@@ -237,7 +249,10 @@ macro_rules! repr_ops {
                     let bytes = j_to_bytes(&op["bytes"]);
                     let mut x = <$R>::default();
                     let mut cur = std::io::Cursor::new(&bytes[..]);
-                    match x.read_be(&mut cur) {
+                    // "reader": n > 0 hands out at most n bytes per read call (pipes, sockets, chained readers)
+                    let chunk = op["reader"].as_u64().unwrap_or(0) as usize;
+                    let r = if chunk == 0 { x.read_be(&mut cur) } else { x.read_be(&mut ChunkRd { inner: &mut cur, chunk }) };
+                    match r {
                         Ok(()) => json!(["ok", words_to_nat(x.as_ref()), cur.position()]),
                         Err(_) => json!(["err"]),
                     }
@@ -246,7 +261,10 @@ macro_rules! repr_ops {
                     let bytes = j_to_bytes(&op["bytes"]);
                     let mut x = <$R>::default();
                     let mut cur = std::io::Cursor::new(&bytes[..]);
-                    match x.read_le(&mut cur) {
+                    // "reader": n > 0 hands out at most n bytes per read call (pipes, sockets, chained readers)
+                    let chunk = op["reader"].as_u64().unwrap_or(0) as usize;
+                    let r = if chunk == 0 { x.read_le(&mut cur) } else { x.read_le(&mut ChunkRd { inner: &mut cur, chunk }) };
+                    match r {
                         Ok(()) => json!(["ok", words_to_nat(x.as_ref()), cur.position()]),
                         Err(_) => json!(["err"]),
                     }
